@@ -30,7 +30,7 @@ ASSUMPTIONS = [
     "never 'exactly once' (ChallengeField legitimately evaluates its default several times)",
 ]
 REQUIRED = ["default:const", "default:callable", "default:none", "op:reset", "reset:after-set", "rejected:on-defined",
-            "op:load_tree", "op:loads", "op:ctor"]
+            "op:load_tree", "op:loads", "op:ctor", "varying-default"]
 LEVEL_TEXT = (
     "Generated schemas with every default flavour and generated histories judged against the stated state machine "
     "after every step; kills mutants that forget the default mark on reset, cache callable defaults or clear the "
@@ -163,7 +163,113 @@ def _without(snap, path):
     return w(snap, path)
 
 
+VARY_KINDS = ("str", "int", "challenge", "secure", "list", "typed-list", "dict", "bytes", "any")
+
+
+def exhaustive(tier):
+    """Default factories that return a DIFFERENT value on every call: each new configuration and each reset must expose
+    the value of its own call (per field kind x placement x form of the factory)."""
+    for kind in VARY_KINDS:
+        for place in ("root", "nested", "configtype", "list-item"):
+            for form in ("function", "partial", "object"):
+                yield {"mode": "varying-default", "kind": kind, "place": place, "form": form}
+
+
+def _nth(kind, n):
+    return {"str": "value-%d" % n, "int": n, "challenge": "pass-%d" % n, "secure": "secret-%d" % n, "list": [n, "x"], "typed-list": [n, n + 1],
+            "dict": {"k": n}, "bytes": b"bytes-%d" % n, "any": {"n": n}}[kind]
+
+
+def _shows(cc, kind, value, n):
+    want = _nth(kind, n)
+    if kind == "challenge":
+        if type(value).__name__ != "DigestValue":
+            return False
+        try:
+            value.challenge(want)
+            return True
+        except Exception:
+            return False
+    if kind in ("list", "typed-list"):
+        return value is not None and list(value) == want
+    if kind == "dict":
+        return value is not None and dict(value) == want
+    return value == want
+
+
+def _varying_case(case, R):
+    import functools
+    cc = sandbox._state["cc"]
+    kind, place, form = case["kind"], case["place"], case["form"]
+    count = [0]
+
+    def produce():
+        count[0] += 1
+        return _nth(kind, count[0])
+
+    class Factory:
+        def __call__(self):
+            return produce()
+    factory = produce if form == "function" else functools.partial(lambda f: f(), produce) if form == "partial" else Factory()
+    field = {"str": lambda: cc.StringField(default=factory), "int": lambda: cc.IntField(default=factory),
+             "challenge": lambda: cc.ChallengeField("sha256", default=factory), "secure": lambda: cc.SecureField(default=factory),
+             "list": lambda: cc.ListField(default=factory), "typed-list": lambda: cc.ListField(cc.IntField(), default=factory),
+             "dict": lambda: cc.DictField(default=factory), "bytes": lambda: cc.BytesField(default=factory), "any": lambda: cc.AnyField(default=factory)}[kind]()
+    schema = cc.Schema()
+    schema.other = cc.IntField(default=7)
+    if place == "root":
+        schema.f = field
+        read = lambda cfg: cfg.f
+        owner = lambda cfg: cfg
+    elif place == "nested":
+        schema.a.b.f = field
+        read = lambda cfg: cfg.a.b.f
+        owner = lambda cfg: cfg.a.b
+    elif place == "configtype":
+        sub = cc.Schema()
+        sub.f = field
+        schema.t = cc.make_type(sub, "VaryT", module=__name__)
+        read = lambda cfg: cfg.t.f
+        owner = lambda cfg: cfg.t
+    else:
+        item = cc.Schema()
+        item.f = field
+        item.tag = cc.StringField()
+        schema.items = cc.ListField(item)
+        read = lambda cfg: cfg.items[0].f
+        owner = lambda cfg: cfg.items[0]
+    R.label("varying-default")
+    R.nontrivial = True
+    with sandbox.CaseDir() as d:
+        def build():
+            cfg = schema(key_filename=os.path.join(d, "key"))
+            if place == "list-item":
+                cfg.items = [{"tag": "t"}]
+            return cfg
+        first = build()
+        n1 = count[0]
+        R.check(n1 >= 1 and _shows(cc, kind, read(first), n1), "fresh-default", "varying:first:%s:%s" % (kind, place),
+                lambda: "first configuration shows %r after %d call(s) of the factory" % (read(first), n1))
+        second = build()
+        n2 = count[0]
+        R.check(n2 > n1 and _shows(cc, kind, read(second), n2), "fresh-default", "varying:second:%s:%s" % (kind, place),
+                lambda: "second configuration shows %r; the factory was called %d time(s) in all and returned %r last" % (read(second), n2, _nth(kind, n2) if n2 else None))
+        R.check(_shows(cc, kind, read(first), n1), "fresh-default", "varying:first-kept:%s:%s" % (kind, place),
+                lambda: "building a second configuration changed the first one's value to %r" % (read(first),))
+        try:
+            setattr(owner(first), "f", _nth(kind, 1000))
+        except Exception:
+            pass
+        cc.reset_value(owner(first), "f")
+        n3 = count[0]
+        R.check(n3 > n2 and _shows(cc, kind, read(first), n3), "reset", "varying:%s:%s" % (kind, place),
+                lambda: "after reset the field shows %r; the factory was called %d time(s) in all" % (read(first), n3))
+        R.check(cc.is_value_defined(owner(first), "f") is False, "reset", "varying:defined", "still user-defined after reset")
+
+
 def run_case(case, R):
+    if case.get("mode") == "varying-default":
+        return _varying_case(case, R)
     cc = sandbox._state["cc"]
     spec = case["spec"]
     with sandbox.CaseDir() as d:
